@@ -327,8 +327,30 @@ pub fn check_tree(tape: &[u16], rc: &mut RCase) -> Result<(), Failure> {
     let mode = if t.chance(3, 4) { Mode::WellTyped } else { Mode::Any };
     let mut g = IrGen::new(&mut t, mode);
     g.max_depth = 5;
-    let tx = g.tx();
-    let kinds = g.kinds.clone();
+    let mut tx = g.tx();
+    let mut kinds = g.kinds.clone();
+    // one time in eight a left-nested chain of one operator with an open head and known terms behind it is
+    // planted (a metadata value): ((x op a) op b) op c. Left-to-right evaluation is what the language
+    // defines; terms at the edges of i128 make any regrouping of the known tail visible.
+    if t.chance(1, 8) {
+        use tir::{BuiltInOp, Expression as E};
+        let edge = |t: &mut Tape| -> i128 {
+            [i128::MAX, i128::MAX - 1, i128::MIN, i128::MIN + 1, 1 << 126, -(1 << 126), 1, -1, 0, 7][t.pick(10)]
+        };
+        let head = match t.pick(3) {
+            0 => E::EvalParam(Box::new(tir::Param::ExpectValue("qty".into(), tx3_tir::model::core::Type::Int))),
+            1 => E::EvalParam(Box::new(tir::Param::ExpectValue("deadline".into(), tx3_tir::model::core::Type::Int))),
+            _ => E::EvalBuiltIn(Box::new(BuiltInOp::Negate(E::EvalParam(Box::new(tir::Param::ExpectValue("qty".into(), tx3_tir::model::core::Type::Int)))))),
+        };
+        let sub = t.flag();
+        let mut e = head;
+        for _ in 0..2 + t.pick(2) {
+            let term = E::Number(edge(&mut t));
+            e = E::EvalBuiltIn(Box::new(if sub { BuiltInOp::Sub(e, term) } else { BuiltInOp::Add(e, term) }));
+        }
+        tx.metadata.push(tir::Metadata { key: E::Number(4242), value: e });
+        kinds.insert("planted:open_head_chain");
+    }
     let rendered = || json!({"tir": crate::util::trunc(&format!("{:?}", tx), 4000)});
     let key = hash64(&format!("{:?}", tx));
     let r1 = match guard(|| tx.clone().reduce()) {
